@@ -60,7 +60,7 @@ type tiers struct {
 
 func tier(t string) tiers {
 	if t == "thorough" {
-		return tiers{K: 3000, SampleK: 300, Budget: 20000, T: 600, SampleT: 60, Gen: 6000, MaxOut: 4000, Compose: 4000}
+		return tiers{K: 5000, SampleK: 400, Budget: 20000, T: 1000, SampleT: 80, Gen: 20000, MaxOut: 4000, Compose: 12000}
 	}
 	return tiers{K: 800, SampleK: 60, Budget: 5000, T: 100, SampleT: 20, Gen: 2000, MaxOut: 1000, Compose: 1500}
 }
